@@ -344,7 +344,7 @@ theorem swapOps_view {name : Asset → String} {p : Nat} {a0 a1 : Asset} {w w' :
 
 /-- extra freshness needed by `PairInv.lpNoPair`: the address of a new pair contract is not a cw20 contract -/
 def FreshPair (w : World) (op : Op) : Prop :=
-  ∀ s f a0 a1 req c np nl, op = .factory s f (.createPair a0 a1 req c np nl) → w.tok np = none
+  ∀ s f a0 a1 req c ld np nl, op = .factory s f (.createPair a0 a1 req c ld np nl) → w.tok np = none
 
 /-- what an operation does to the pair: the reserve product grows (and the LP supply does not), or — for
 operations that are not swaps — the share value does not decrease, or an in-window swap on the pair -/
@@ -705,8 +705,8 @@ theorem view_cases {name : Asset → String} {w w' : World} {op : Op} {out : Out
     obtain ⟨w1, h1, rfl, _⟩ := h
     refine calm hinv (facExec_tr (S := fun z => z = s) (Mn := fun _ => False) (N := fun _ => True) h1 rfl ?_)
       (fun e => hsp e.symm) hF
-    intro x0 x1 req c np nl e
-    have e' : Op.factory s f m = .factory s f (.createPair x0 x1 req c np nl) := by rw [e]
+    intro x0 x1 req c ld np nl e
+    have e' : Op.factory s f m = .factory s f (.createPair x0 x1 req c ld np nl) := by rw [e]
     exact ⟨freshOK_pair hv.fresh e', freshOK_tok hv.fresh e', trivial⟩
 
 /-! ### the invariant -/
@@ -776,8 +776,8 @@ theorem inv_step {name : Asset → String} {w w' : World} {op : Op} {out : Out} 
       | none => rfl
       | some Q => rw [hq] at this; cases this
     have hnew : ¬ NewOf op lp := by
-      rintro ⟨s, f, x0, x1, req, c, nl, rfl⟩
-      have := hx s f x0 x1 req c lp nl rfl
+      rintro ⟨s, f, x0, x1, req, c, ld, nl, rfl⟩
+      have := hx s f x0 x1 req c ld lp nl rfl
       rw [hT] at this
       cases this
     rw [st.pairNone lp hnew hn]
@@ -912,7 +912,7 @@ open Halo
 
 /-- `ValidOp` now carries the full freshness of newly allocated addresses (`FreshOK` includes `w.tok np = none`) -/
 theorem freshPair_of_valid (w : World) (op : Op) (hv : ValidOp w op) : FreshPair w op :=
-  fun s f a0 a1 req c np nl e => (hv.fresh s f a0 a1 req c np nl e).2.2
+  fun s f a0 a1 req c ld np nl e => (hv.fresh s f a0 a1 req c ld np nl e).2.2
 
 theorem step_nondecr {name : Asset → String} {w w' : World} {op : Op} {out : Out} {p : Nat} {a0 a1 : Asset} {lp : Nat}
     (hinv : PairInv w p a0 a1 lp) (hv : ValidOp w op) (h : exec name w op = .ok (w', out)) :
